@@ -220,3 +220,85 @@ func contract_Field_HasPresence(fd *Field) (r bool) {
 	ensures(r == specHasPresence(fd))
 	return
 }
+
+// ---------------------------------------------------------------- keyed views: first declaration wins (C36)
+
+// The lazily built keyed views of the generated descriptor lists (ByName, ByNumber, ByJSONName,
+// ByTextName) are filled in list order and never replace an existing entry: when two elements
+// share a key, the lookup returns the FIRST of them, as the indexed view's order promises
+// (directive insert-only-map: every store into these maps is to a key that is absent). The
+// function literal handed to sync.Once.Do is executed once from an arbitrary state.
+//
+//@ pure filedesc.Base.Name filedesc.Field.JSONName filedesc.Field.TextName filedesc.Field.Number filedesc.EnumValue.Number
+
+// @ props C36
+// @ mode int
+// @ nopanic
+// @ insert-only-map p.byName
+func contract_Enums_lazyInit(p *Enums) (r *Enums) {
+	modifiesAll()
+	return
+}
+
+// @ props C36
+// @ mode int
+// @ nopanic
+// @ insert-only-map p.byName p.byNum
+func contract_EnumValues_lazyInit(p *EnumValues) (r *EnumValues) {
+	modifiesAll()
+	return
+}
+
+// @ props C36
+// @ mode int
+// @ nopanic
+// @ insert-only-map p.byName
+func contract_Messages_lazyInit(p *Messages) (r *Messages) {
+	modifiesAll()
+	return
+}
+
+// @ props C36
+// @ mode int
+// @ nopanic
+// @ insert-only-map p.byName p.byJSON p.byText p.byNum
+func contract_Fields_lazyInit(p *Fields) (r *Fields) {
+	modifiesAll()
+	return
+}
+
+// @ props C36
+// @ mode int
+// @ nopanic
+// @ insert-only-map p.byName
+func contract_Oneofs_lazyInit(p *Oneofs) (r *Oneofs) {
+	modifiesAll()
+	return
+}
+
+// @ props C36
+// @ mode int
+// @ nopanic
+// @ insert-only-map p.byName
+func contract_Extensions_lazyInit(p *Extensions) (r *Extensions) {
+	modifiesAll()
+	return
+}
+
+// @ props C36
+// @ mode int
+// @ nopanic
+// @ insert-only-map p.byName
+func contract_Services_lazyInit(p *Services) (r *Services) {
+	modifiesAll()
+	return
+}
+
+// @ props C36
+// @ mode int
+// @ nopanic
+// @ insert-only-map p.byName
+func contract_Methods_lazyInit(p *Methods) (r *Methods) {
+	modifiesAll()
+	return
+}
